@@ -376,6 +376,15 @@ impl Check for C18 {
             }
             let mut a = base.clone();
             let mut b = base.clone();
+            if cx.verbose && std::env::var("VERIF_DUMP").is_ok() {
+                let _ = std::fs::create_dir_all("/verif/out/dump/c18");
+                let _ = std::fs::write("/verif/out/dump/c18/base.bin", base.clone().save());
+                let mut all = vec![];
+                for h in &s {
+                    all.extend_from_slice(by_hash[h].raw_bytes());
+                }
+                let _ = std::fs::write("/verif/out/dump/c18/changes.bin", all);
+            }
             let ra = catch(|| a.apply_changes(s.iter().map(|h| by_hash[h].clone())));
             let rb = catch(|| b.load_incremental(&bytes));
             cx.count("bundle_loads_compared");
@@ -391,6 +400,11 @@ impl Check for C18 {
                         cx.violation("bundle-load-differs-from-apply|queue", format!("after load_incremental(bundle) the pending queue holds {} changes, after apply_changes {}", qb.len(), qa.len()), det("load"));
                         return;
                     }
+                }
+                (Err(pa), Err(pb)) if panic_sig_fn(&pa) == panic_sig_fn(&pb) => {
+                    // both ways of delivering the same changes panic at the same place: that is
+                    // C37's finding, not a difference between bundle and change delivery
+                    cx.count("panics_left_to_C37");
                 }
                 (ra, rb) => {
                     let f = |r: &Result<Result<(), automerge::AutomergeError>, String>| match r {
